@@ -305,8 +305,8 @@ HARNESSES = [
             decides='from any counter state (incl. carries across bytes) successive new_oid() results strictly increase',
             symbolic='counter (8 free bytes)', bounds='3 consecutive allocations', oracle='strict increase above the counter',
             code=['BaseStorage.new_oid', 'MappingStorage.new_oid'], pure_python=True,
-            quick=dict(timeout=100, shards=shards(storage=['file', 'mapping'])),
-            thorough=dict(timeout=300, shards=shards(storage=['file', 'mapping']))),
+            quick=dict(timeout=240, shards=shards(storage=['file', 'mapping'])),
+            thorough=dict(timeout=600, shards=shards(storage=['file', 'mapping']))),
     Harness('stored_oid', h_stored_oid,
             decides='after a record with an arbitrary id was stored or restored (and after reopen), new_oid never returns '
                     'that id, a present id, or an id issued earlier in the session',
